@@ -50,10 +50,13 @@ MixDescs == << <<"mix", <<1, 3>>, <<3, 3>>>>, <<"mix", <<2, 1, 2>>, <<2, 2>>>>, 
 Descs == MyCases(LargeDescs \o MixDescs \o MatMulDescs \o DotDescs \o TrDescs \o BadDescs \o IdDescs)
 
 D == "any,wide,zero"
+(* fourth profile: entries below 1e-240 (the library's equality tolerance) against entries above 1e240 - their products are ordinary numbers *)
+DA == "any,wide,zero,tiny250"
+DB == "any,wide,zero,huge250"
 Build(d) ==
-  CASE d[1] = "mm" -> MkCase("c04", "matmul", <<In("a", d[2], FALSE), In("b", d[3], FALSE)>>, <<D, D>>,
+  CASE d[1] = "mm" -> MkCase("c04", "matmul", <<In("a", d[2], FALSE), In("b", d[3], FALSE)>>, <<DA, DB>>,
                              <<Ins("matmul", NoPar, <<1, 2>>)>>, <<3>>, 0, TRUE)
-    [] d[1] = "dot" -> MkCase("c04", "dot", <<In("a", d[2], FALSE), In("b", d[3], FALSE)>>, <<D, D>>,
+    [] d[1] = "dot" -> MkCase("c04", "dot", <<In("a", d[2], FALSE), In("b", d[3], FALSE)>>, <<DB, DA>>,
                               <<Ins("dot", NoPar, <<1, 2>>)>>, <<3>>, 0, TRUE)
     [] d[1] = "tr" -> MkCase("c04", "transpose", <<In("a", d[2], FALSE)>>, <<"iota">>,
                              <<Ins("transpose", NoPar, <<1>>)>>, <<2>>, 0, TRUE)
